@@ -88,6 +88,10 @@ theorem cg_loops_irrel (mod fn : String) (φ : String → Option String) : ∀ (
           all_goals (rename_i g _ sg; cases g <;> cases sg <;> first | exact ⟨rfl, rfl⟩ | simp [Frag.okFS] at hok)
         case call csp cty base args sw =>
           cases base <;> try (simp [Frag.okFS] at hok; done)
+          case member msp mty b nm mop =>
+            cases mop <;> cases args <;> try (simp [Frag.okFS] at hok; done)
+            rename_i a rest
+            cases rest <;> cases sw <;> first | exact ⟨rfl, rfl⟩ | simp [Frag.okFS] at hok
           exact ⟨rfl, rfl⟩
         case ifE isp ty c t el =>
           cases el with
@@ -195,7 +199,10 @@ theorem okFS_mono (fr : Bool) : ∀ (n : Nat),
         obtain ⟨bsp, bty, stmts, boe⟩ := body
         cases iter <;> try (simp [Frag.okFS] at hok; done)
         cases boe <;> simp [Frag.okFS] at hok
-      case letS sp name vty nc oty e => cases nc <;> exact hok
+      case letS sp name vty nc oty e =>
+        simp only [Frag.okFS, Bool.false_and, Bool.or_false] at hok
+        simp only [Frag.okFS, Bool.and_eq_true, Bool.or_eq_true] at hok ⊢
+        exact ⟨hok.1, Or.inl hok.2⟩
       case ret sp oe => cases oe <;> exact hok
       case brk sp => exact hok
       case cont sp => exact hok
@@ -214,6 +221,10 @@ theorem okFS_mono (fr : Bool) : ∀ (n : Nat),
           all_goals (rename_i g _ sg; cases g <;> cases sg <;> first | exact hok | simp [Frag.okFS] at hok)
         case call csp cty base args sw =>
           cases base <;> try (simp [Frag.okFS] at hok; done)
+          case member msp mty b nm mop =>
+            cases mop <;> cases args <;> try (simp [Frag.okFS] at hok; done)
+            rename_i a rest
+            cases rest <;> cases sw <;> simp [Frag.okFS] at hok
           exact hok
         case ifE isp ty c t el =>
           cases el with
